@@ -1,10 +1,16 @@
 package ioutils
 
-import "io"
+import (
+	"io"
+	"sync/atomic"
+)
 
 type readCloserWithCloseHook struct {
 	inner   io.ReadCloser
 	onClose func() error
+	// hookCalled is set by the first Close: the hook releases a resource shared with other
+	// readers and must run once per reader, however often that reader is closed.
+	hookCalled int32
 }
 
 func NewReadCloserWithCloseHook(inner io.ReadCloser, onClose func() error) io.ReadCloser {
@@ -17,7 +23,7 @@ func (r *readCloserWithCloseHook) Read(p []byte) (int, error) {
 
 func (r *readCloserWithCloseHook) Close() error {
 	err := r.inner.Close()
-	if r.onClose == nil {
+	if r.onClose == nil || !atomic.CompareAndSwapInt32(&r.hookCalled, 0, 1) {
 		return err
 	}
 	if closeErr := r.onClose(); err == nil {
@@ -27,8 +33,9 @@ func (r *readCloserWithCloseHook) Close() error {
 }
 
 type readSeekCloserWithCloseHook struct {
-	inner   io.ReadSeekCloser
-	onClose func() error
+	inner      io.ReadSeekCloser
+	onClose    func() error
+	hookCalled int32 // see readCloserWithCloseHook
 }
 
 // NewReadSeekCloserWithCloseHook is NewReadCloserWithCloseHook for readers
@@ -48,7 +55,7 @@ func (r *readSeekCloserWithCloseHook) Seek(offset int64, whence int) (int64, err
 
 func (r *readSeekCloserWithCloseHook) Close() error {
 	err := r.inner.Close()
-	if r.onClose == nil {
+	if r.onClose == nil || !atomic.CompareAndSwapInt32(&r.hookCalled, 0, 1) {
 		return err
 	}
 	if closeErr := r.onClose(); err == nil {
